@@ -87,7 +87,7 @@ def check_validation(report):
             f"loops over the settings: {sorted(loopsg)}", "every settings entry must be validated")
     MS = sorted(loopsg)[0][1] if loopsg else "method_settings"
     SEL = f"{MS}.selector"
-    MD = f"self.all_methods.get({SEL})"
+    MD = f"self.all_methods.get({SEL}, None)"
     RQ = f"self.messages[{MD}.input_type.lstrip('.')]"
 
     class _GetToItem(ast.NodeTransformer):
